@@ -2,14 +2,17 @@ module verif
 
 go 1.23
 
-require servitor v0.0.0
+require (
+	github.com/yuin/goldmark v1.7.4
+	golang.org/x/net v0.27.0
+	servitor v0.0.0
+)
 
 require (
 	github.com/BurntSushi/toml v1.4.0 // indirect
 	github.com/hashicorp/golang-lru/v2 v2.0.7 // indirect
-	github.com/yuin/goldmark v1.7.4 // indirect
 	golang.org/x/exp v0.0.0-20240707233637-46b078467d37 // indirect
-	golang.org/x/net v0.27.0 // indirect
+	golang.org/x/sync v0.7.0 // indirect
 )
 
 replace servitor => /repo
